@@ -113,12 +113,20 @@ func newTx(db *DB, writable bool) (tx *Tx, err error) {
 
 // getTxID returns the tx id.
 func (tx *Tx) getTxID() (id uint64, err error) {
-	node, err := snowflake.NewNode(tx.db.opt.NodeNum)
-	if err != nil {
-		return 0, err
+	// one generator per DB: a new node per transaction restarts the sequence at 0,
+	// so transactions begun in the same millisecond received the same id.
+	tx.db.txIDMu.Lock()
+	defer tx.db.txIDMu.Unlock()
+
+	if tx.db.txIDNode == nil {
+		node, err := snowflake.NewNode(tx.db.opt.NodeNum)
+		if err != nil {
+			return 0, err
+		}
+		tx.db.txIDNode = node
 	}
 
-	id = uint64(node.Generate().Int64())
+	id = uint64(tx.db.txIDNode.Generate().Int64())
 
 	return
 }
